@@ -17,7 +17,7 @@ var zzHarnesses = map[string]func(){"H06Glob": H06Glob}
 //   <dir>/a.log  <dir>/b.log  <dir>/sub/c.log     (each file present or not; sub always a directory)
 
 var (
-	zzDir                 string
+	zzDir                  string
 	zzHasA, zzHasB, zzHasC bool
 )
 
